@@ -220,4 +220,244 @@ theorem View.r_res {s : View} (h : s.PInvol) {i j d : Nat} (hi : i ≤ s.dim) (h
     obtain ⟨t, ht1, ht2, ht3⟩ := piter_returns hpi h1 h2 hc'
     exact absurd ht3 (e t ht1 (by omega))
 
+/-! ### the concrete representations -/
+
+theorem opPartial_eq_some {s : DSetData} {i d e : Nat} :
+    s.opPartial i d = some e ↔ i ≤ s.dim ∧ 1 ≤ d ∧ d ≤ s.size ∧ s.opU i d = e ∧ e ≠ 0 := by
+  unfold DSetData.opPartial
+  by_cases h : (decide (i > s.dim) || decide (d < 1) || decide (d > s.size)) = true
+  · rw [if_pos h]
+    simp only [Bool.or_eq_true, decide_eq_true_eq] at h
+    constructor
+    · intro h'; cases h'
+    · intro h'; omega
+  · rw [if_neg h]
+    simp only [Bool.or_eq_true, decide_eq_true_eq] at h
+    cases hx : s.opU i d with
+    | zero => simp; intro _ _ _ h0; omega
+    | succ x =>
+      simp only [Option.some.injEq]
+      constructor
+      · intro h'; subst h'; exact ⟨by omega, by omega, by omega, rfl, by omega⟩
+      · intro h'; exact h'.2.2.2.1
+
+theorem opSimple_eq_some {s : DSetData} {i d e : Nat} :
+    s.opSimple i d = some e ↔ i ≤ s.dim ∧ 1 ≤ d ∧ d ≤ s.size ∧ s.opU i d = e := by
+  unfold DSetData.opSimple
+  by_cases h : (decide (i > s.dim) || decide (d < 1) || decide (d > s.size)) = true
+  · rw [if_pos h]
+    simp only [Bool.or_eq_true, decide_eq_true_eq] at h
+    constructor
+    · intro h'; cases h'
+    · intro h'; omega
+  · rw [if_neg h]
+    simp only [Bool.or_eq_true, decide_eq_true_eq] at h
+    simp only [Option.some.injEq]
+    constructor
+    · intro h'; exact ⟨by omega, by omega, by omega, h'⟩
+    · intro h'; exact h'.2.2.2
+
+theorem ValidPartialSet.pinvol {s : DSetData} (h : ValidPartialSet s) : s.viewPartial.PInvol := by
+  constructor
+  · intro i d e he
+    obtain ⟨hi, h1, h2, rfl, h0⟩ := opPartial_eq_some.1 he
+    exact ⟨by omega, h.range i d hi h1 h2⟩
+  · intro i d e he
+    obtain ⟨hi, h1, h2, rfl, h0⟩ := opPartial_eq_some.1 he
+    exact opPartial_eq_some.2 ⟨hi, by omega, h.range i d hi h1 h2, h.invol i d hi h1 h2 h0, by omega⟩
+
+theorem ValidSet.pinvol {s : DSetData} (h : ValidSet s) : s.viewSimple.PInvol := by
+  constructor
+  · intro i d e he
+    obtain ⟨hi, h1, h2, rfl⟩ := opSimple_eq_some.1 he
+    exact h.range i d hi h1 h2
+  · intro i d e he
+    obtain ⟨hi, h1, h2, rfl⟩ := opSimple_eq_some.1 he
+    have := h.range i d hi h1 h2
+    exact opSimple_eq_some.2 ⟨hi, this.1, this.2, h.invol i d hi h1 h2⟩
+
+/-- on a complete D-set the two plain representations have the same `op` -/
+theorem ValidSet.opPartial_eq_opSimple {s : DSetData} (h : ValidSet s) : s.opPartial = s.opSimple := by
+  funext i d
+  cases hx : s.opSimple i d with
+  | none =>
+    cases hy : s.opPartial i d with
+    | none => rfl
+    | some e =>
+      obtain ⟨a, b, c, e', _⟩ := opPartial_eq_some.1 hy
+      rw [opSimple_eq_some.2 ⟨a, b, c, e'⟩] at hx; cases hx
+  | some e =>
+    obtain ⟨a, b, c, e'⟩ := opSimple_eq_some.1 hx
+    have := h.range i d a b c
+    exact opPartial_eq_some.2 ⟨a, b, c, e', by omega⟩
+
+theorem ValidSet.viewPartial_eq_viewSimple {s : DSetData} (h : ValidSet s) : s.viewPartial = s.viewSimple := by
+  unfold DSetData.viewPartial DSetData.viewSimple; rw [h.opPartial_eq_opSimple]
+
+/-- the total composite `op j ∘ op i` on the raw table -/
+def DSetData.comp (s : DSetData) (i j : Nat) : Nat → Nat := fun e => s.opU j (s.opU i e)
+
+theorem ValidSet.comp_range {s : DSetData} (h : ValidSet s) {i j : Nat} (hi : i ≤ s.dim) (hj : j ≤ s.dim)
+    {d : Nat} (h1 : 1 ≤ d) (h2 : d ≤ s.size) : ∀ t, 1 ≤ (s.comp i j)^[t] d ∧ (s.comp i j)^[t] d ≤ s.size
+  | 0 => ⟨h1, h2⟩
+  | t + 1 => by
+    rw [Function.iterate_succ_apply']
+    have a := ValidSet.comp_range h hi hj h1 h2 t
+    have b := h.range i _ hi a.1 a.2
+    exact h.range j _ hj b.1 b.2
+
+theorem ValidSet.piter_eq {s : DSetData} (h : ValidSet s) {i j : Nat} (hi : i ≤ s.dim) (hj : j ≤ s.dim)
+    {d : Nat} (h1 : 1 ≤ d) (h2 : d ≤ s.size) :
+    ∀ t, piter (s.viewSimple.step2 i j) t d = some ((s.comp i j)^[t] d)
+  | 0 => rfl
+  | t + 1 => by
+    rw [piter_succ, ValidSet.piter_eq h hi hj h1 h2 t, Function.iterate_succ_apply']
+    have a := h.comp_range hi hj h1 h2 t
+    have b := h.range i _ hi a.1 a.2
+    simp only [Option.bind_some, View.step2_eq]
+    show (s.opSimple i _).bind (s.opSimple j) = _
+    rw [opSimple_eq_some.2 ⟨hi, a.1, a.2, rfl⟩]
+    simp only [Option.bind_some]
+    rw [opSimple_eq_some.2 ⟨hj, b.1, b.2, rfl⟩]
+    rfl
+
+/-- **termination and meaning of the generic `r`** on a complete D-set: it returns the least
+    period `k ∈ 1..size` of `d` under `op j ∘ op i`, in both plain representations -/
+theorem ValidSet.r_generic {s : DSetData} (h : ValidSet s) {i j d : Nat} (hi : i ≤ s.dim) (hj : j ≤ s.dim)
+    (h1 : 1 ≤ d) (h2 : d ≤ s.size) :
+    ∃ k, 1 ≤ k ∧ k ≤ s.size ∧ s.viewSimple.r i j d = .ok (some k) ∧ s.viewPartial.r i j d = .ok (some k) ∧
+      (s.comp i j)^[k] d = d ∧ ∀ t, 1 ≤ t → t < k → (s.comp i j)^[t] d ≠ d := by
+  have hres := View.r_res h.pinvol (i := i) (j := j) (d := d) hi hj h1 h2
+  rw [h.viewPartial_eq_viewSimple]
+  have hp := h.piter_eq hi hj h1 h2
+  generalize s.viewSimple.r i j d = res at hres
+  match res, hres with
+  | .ok (some k), ⟨a, b, c, e⟩ =>
+    refine ⟨k, a, b, rfl, rfl, ?_, ?_⟩
+    · rw [hp k] at c; exact Option.some.inj c
+    · intro t ht1 ht2 heq
+      exact e t ht1 ht2 (by rw [hp t, heq])
+  | .ok none, ⟨t, _, _, e, _⟩ =>
+    rw [hp (t + 1)] at e; cases e
+
+/-! ### agreement with the Spec's `orbitLen` -/
+
+/-- the Spec's view of a stored D-set (branching table irrelevant for `orbitLen`) -/
+def DSetData.toG (s : DSetData) (v : Nat → Nat → Nat := fun _ _ => 0) : SpecC02.G :=
+  { size := s.size, dim := s.dim, op := s.opU, v := v }
+
+theorem rLoop_eq_orbitLenAux {s : DSetData} (h : ValidPartialSet s) (v : Nat → Nat → Nat) {i j : Nat}
+    (hi : i ≤ s.dim) (hj : j ≤ s.dim) (d : Nat) :
+    ∀ fuel e r, 1 ≤ e → e ≤ s.size → s.viewPartial.rLoop i j d fuel e r ≠ .panic →
+      s.viewPartial.rLoop i j d fuel e r = .ok (SpecC02.G.orbitLenAux (s.toG v) i j d fuel e r)
+  | 0, e, r, _, _, hp => by
+    unfold View.rLoop at hp; exact absurd rfl hp
+  | fuel + 1, e, r, he1, he2, hp => by
+    unfold View.rLoop at hp ⊢
+    unfold SpecC02.G.orbitLenAux
+    have hw : s.viewPartial.walk e [i, j] = (s.opPartial i e).bind (s.opPartial j) :=
+      View.step2_eq s.viewPartial i j e
+    rw [hw] at hp ⊢
+    show _ = Outcome.ok (if (s.opU i e == 0) = true then none else
+      if (s.opU j (s.opU i e) == 0) = true then none else
+      if (s.opU j (s.opU i e) == d) = true then some (r + 1)
+      else SpecC02.G.orbitLenAux (s.toG v) i j d fuel (s.opU j (s.opU i e)) (r + 1))
+    by_cases hx : s.opU i e = 0
+    · have : s.opPartial i e = none := by
+        cases hc : s.opPartial i e with
+        | none => rfl
+        | some c => have := opPartial_eq_some.1 hc; omega
+      rw [this]; simp [hx]
+    · have hxr := h.range i e hi he1 he2
+      rw [opPartial_eq_some.2 ⟨hi, he1, he2, rfl, hx⟩] at hp ⊢
+      simp only [Option.bind_some] at hp ⊢
+      by_cases hy : s.opU j (s.opU i e) = 0
+      · have : s.opPartial j (s.opU i e) = none := by
+          cases hc : s.opPartial j (s.opU i e) with
+          | none => rfl
+          | some c => have := opPartial_eq_some.1 hc; omega
+        rw [this]; simp [hx, hy]
+      · have hyr := h.range j _ hj (by omega) hxr
+        rw [opPartial_eq_some.2 ⟨hj, by omega, hxr, rfl, hy⟩] at hp ⊢
+        simp only at hp ⊢
+        by_cases hc : s.opU j (s.opU i e) = d
+        · rw [if_pos hc]; rw [hc] at hy; simp [hx, hy, hc]
+        · rw [if_neg hc] at hp ⊢
+          simp only [beq_iff_eq, hx, hy, hc, if_false]
+          exact rLoop_eq_orbitLenAux h v hi hj d fuel _ (r + 1) (by omega) hyr hp
+
+/-- on every (possibly incomplete) involutive D-set the generic `r` of `PartialDSet`
+    terminates and is the Spec's `orbitLen` -/
+theorem ValidPartialSet.r_eq_orbitLen {s : DSetData} (h : ValidPartialSet s) (v : Nat → Nat → Nat) {i j d : Nat}
+    (hi : i ≤ s.dim) (hj : j ≤ s.dim) (h1 : 1 ≤ d) (h2 : d ≤ s.size) :
+    s.viewPartial.r i j d = .ok (SpecC02.G.orbitLen (s.toG v) i j d) := by
+  have hres := View.r_res h.pinvol (i := i) (j := j) (d := d) hi hj h1 h2
+  have hne : s.viewPartial.r i j d ≠ .panic := by
+    intro hp; rw [hp] at hres; exact hres
+  unfold View.r at hne ⊢
+  rw [if_neg (by simp only [Bool.or_eq_true, decide_eq_true_eq]; show ¬ (((i > s.dim ∨ j > s.dim) ∨ d < 1) ∨ d > s.size); omega)] at hne ⊢
+  exact rLoop_eq_orbitLenAux h v hi hj d (s.size + 1) d 0 h1 h2 hne
+
+/-! ### non-adjacent indices: the table-free shortcut of `PartialDSym` / `SimpleDSym` -/
+
+theorem DSymData.view_eq (s : DSymData) : s.view = s.dset.viewSimple := rfl
+
+theorem FarCommute.symm {s : DSetData} (hf : FarCommute s) {i j d : Nat} (hij : i + 1 < j ∨ j + 1 < i)
+    (hi : i ≤ s.dim) (hj : j ≤ s.dim) (h1 : 1 ≤ d) (h2 : d ≤ s.size) :
+    s.opU j (s.opU i d) = s.opU i (s.opU j d) := by
+  rcases hij with h | h
+  · exact hf i j d h hj h1 h2
+  · exact (hf j i d h hi h1 h2).symm
+
+/-- for |i-j| > 1 on a D-set with commuting far operations the orbit of `d` under
+    `op j ∘ op i` has length 1 if `op i d = op j d` and 2 otherwise -/
+theorem ValidSet.r_far {s : DSetData} (h : ValidSet s) (hf : FarCommute s) {i j d : Nat}
+    (hij : i + 1 < j ∨ j + 1 < i) (hi : i ≤ s.dim) (hj : j ≤ s.dim) (h1 : 1 ≤ d) (h2 : d ≤ s.size) :
+    s.viewSimple.r i j d = .ok (some (if s.opU i d = s.opU j d then 1 else 2)) := by
+  obtain ⟨k, hk1, _, hr, _, hper, hmin⟩ := h.r_generic hi hj h1 h2
+  rw [hr]
+  have hid := h.range i d hi h1 h2
+  have hjd := h.range j d hj h1 h2
+  by_cases he : s.opU i d = s.opU j d
+  · rw [if_pos he]
+    have hg : (s.comp i j)^[1] d = d := by
+      show s.opU j (s.opU i d) = d
+      rw [he]; exact h.invol j d hj h1 h2
+    have : k = 1 := by
+      by_cases hk : k = 1
+      · exact hk
+      · exact absurd hg (hmin 1 (by omega) (by omega))
+    rw [this]
+  · rw [if_neg he]
+    have hg1 : (s.comp i j)^[1] d ≠ d := by
+      show s.opU j (s.opU i d) ≠ d
+      intro hc
+      apply he
+      have := h.invol j (s.opU i d) hj hid.1 hid.2
+      rw [hc] at this; exact this.symm
+    have hg2 : (s.comp i j)^[2] d = d := by
+      show s.opU j (s.opU i (s.opU j (s.opU i d))) = d
+      rw [← hf.symm hij hi hj hid.1 hid.2, h.invol i d hi h1 h2]
+      exact h.invol j d hj h1 h2
+    have : k = 2 := by
+      by_cases hk : k = 2
+      · exact hk
+      · by_cases hk' : k = 1
+        · subst hk'; exact absurd hper hg1
+        · exact absurd hg2 (hmin 2 (by omega) (by omega))
+    rw [this]
+
+theorem DSymData.rPartial_far (s : DSymData) {i j d : Nat}
+    (hij : i + 1 < j ∨ j + 1 < i) (hi : i ≤ s.dim) (hj : j ≤ s.dim) (h1 : 1 ≤ d) (h2 : d ≤ s.size) :
+    s.rPartial i j d = .ok (some (if s.dset.opU i d = s.dset.opU j d then 1 else 2)) := by
+  unfold DSymData.rPartial
+  have ho : ¬ s.outOfRange i j d = true := by rw [outOfRange_iff]; omega
+  rw [if_neg ho, if_neg (by omega), if_neg (by omega), if_neg (by omega)]
+  have a : s.op i d = some (s.dset.opU i d) := opSimple_eq_some.2 ⟨hi, h1, h2, rfl⟩
+  have b : s.op j d = some (s.dset.opU j d) := opSimple_eq_some.2 ⟨hj, h1, h2, rfl⟩
+  rw [a, b]
+  by_cases he : s.dset.opU i d = s.dset.opU j d
+  · rw [if_pos (by rw [he]), if_pos he]
+  · rw [if_neg (by intro hc; exact he (Option.some.inj hc)), if_neg he]
+
 end DSymVerif.DS
